@@ -260,9 +260,20 @@ func c19Table(w *verifrt.World, tier Tier) *RunResult {
 		var fired []int
 		var status string
 		engineOff := false
+		// a sixth of the transactions meet a sink that stores the record and then
+		// reports an error: the record count does not change
+		failWrite := t.Draw(6) == 0
+		if failWrite {
+			res.count("writer_ack_lost", 1)
+		}
 		pan := safely(func() {
 			tx = h.WAF.NewTransactionWithID(s.ID)
 			status = c19Drive(tx, s)
+			if failWrite {
+				if rw := recWriterOf(tx); rw != nil {
+					rw.FailAfterDelivery = 1
+				}
+			}
 			tx.ProcessLogging()
 			for _, mr := range tx.MatchedRules() {
 				fired = append(fired, mr.Rule().ID())
